@@ -367,6 +367,40 @@ func (e *quarEnv) exec(line string) string {
 			_, err := e.bankSrv.Send(ctx, &banktypes.MsgSend{FromAddress: from.String(), ToAddress: to.String(), Amount: cs})
 			return err
 		}
+	case ws[0] == "regenesis" && len(ws) == 1:
+		// REAL ExportGenesis, then REAL InitGenesis into the emptied quarantine store (what restarting a
+		// chain from exported state does). The exported funds are imported in canonical order.
+		f = func(ctx sdk.Context) error {
+			gs := k.ExportGenesis(ctx)
+			if err := gs.Validate(); err != nil {
+				return err
+			}
+			key := func(qf *quarantine.QuarantinedFunds) string {
+				var ns []string
+				for _, a := range qf.UnacceptedFromAddresses {
+					ns = append(ns, e.name(sdk.MustAccAddressFromBech32(a)))
+				}
+				sort.Strings(ns)
+				d := "0"
+				if qf.Declined {
+					d = "1"
+				}
+				return e.name(sdk.MustAccAddressFromBech32(qf.ToAddress)) + "<" + JoinOr(ns, "+") + "/" + CoinsStrDenomOrder(qf.Coins) + "/" + d
+			}
+			sort.SliceStable(gs.QuarantinedFunds, func(i, j int) bool { return key(gs.QuarantinedFunds[i]) < key(gs.QuarantinedFunds[j]) })
+			st := ctx.KVStore(e.app.GetKey(quarantine.StoreKey))
+			var dead [][]byte
+			it := st.Iterator(nil, nil)
+			for ; it.Valid(); it.Next() {
+				dead = append(dead, append([]byte{}, it.Key()...))
+			}
+			it.Close()
+			for _, kk := range dead {
+				st.Delete(kk)
+			}
+			k.InitGenesis(ctx, gs)
+			return nil
+		}
 	case ws[0] == "bsend" && len(ws) == 4:
 		// bank keeper SendCoins under quarantine.WithBypass: the exchange module's settlement/payment route
 		from, ok1 := e.addr(ws[1])
@@ -864,6 +898,10 @@ func quarDrive(t *testing.T, rng *RNG, n int, out *Out) {
 		if rng.Chance(6) {
 			drainAt = steps/2 + rng.Intn(steps/2)
 		}
+		regenAt := -1
+		if rng.Chance(12) {
+			regenAt = steps/3 + rng.Intn(steps-steps/3)
+		}
 		for i := 0; i < steps; i++ {
 			if rng.Chance(2) {
 				line = quarSimplifyLine(rng)
@@ -872,6 +910,9 @@ func quarDrive(t *testing.T, rng *RNG, n int, out *Out) {
 				continue
 			}
 			line = g.op(hot)
+			if regenAt == i {
+				line = "regenesis"
+			}
 			if drainAt == i {
 				// the holder's key does not exist on a chain; this op only exercises the chain's own
 				// FundsHolderBalanceInvariant on a state where the holder no longer covers the records
